@@ -168,7 +168,7 @@ func TestC14(t *testing.T) {
 func genPlanC13(rt *rapid.T) *RPlan {
 	p := &RPlan{Retain: 8}
 	p.PauseUs = rapid.SampledFrom([]int{0, 1000, 2000, 5000, 20000, 250, 500, 999, 1001, 1500}).Draw(rt, "pause")
-	p.Scenario = rapid.SampledFrom([]string{"pacing", "pacing", "idle", "idle", "saturated", "saturated", "storm", "storm", "close-in-inhibit", "barge"}).Draw(rt, "scenario")
+	p.Scenario = rapid.SampledFrom([]string{"pacing", "pacing", "idle", "idle", "saturated", "saturated", "storm", "storm", "close-in-inhibit", "barge", "idle-twice", "idle-twice"}).Draw(rt, "scenario")
 	if p.Scenario == "barge" {
 		p.PauseUs = 0
 		k := rapid.SampledFrom([]int{1, 1, 2, 4, 8}).Draw(rt, "barge-senders")
@@ -260,6 +260,20 @@ func genPlanC13(rt *rapid.T) *RPlan {
 		}
 		p.Net = []RNet{{AfterUs: first*per/lanes + 3*p.PauseUs + 3000, Kind: "busy-idle", WaitMs: wait, Ctl: ctl}}
 		add(total-first+1, first*per/lanes+3*p.PauseUs+3500)
+	case "idle-twice":
+		// two busy indications at idle on one client, the second after the inhibit of the first has run out: the first
+		// announces more than the 50 ms maximum (its inhibit is capped), the second less - it is an indication like
+		// any other, whatever the client remembers of the first
+		first := total / 3
+		add(first, 0)
+		at := first*per/lanes + 3*p.PauseUs + 3000
+		wait1 := rapid.SampledFrom([]int{51, 60, 120, 300, 500, 1024}).Draw(rt, "wait1")
+		wait2 := rapid.SampledFrom([]int{10, 20, 30, 40, 49, 50}).Draw(rt, "wait2")
+		gap := rapid.IntRange(54_000, 90_000).Draw(rt, "second-busy-after")
+		p.Net = []RNet{{AfterUs: at, Kind: "busy-idle", WaitMs: wait1, Ctl: ctl},
+			{AfterUs: gap, Kind: "busy-idle", WaitMs: wait2, Ctl: rapid.IntRange(0, 1).Draw(rt, "ctl2")}}
+		add(first+1, at+500)
+		add(total-2*first+1, gap+2000)
 	case "storm":
 		first := total / 2
 		add(first, 0)
